@@ -21,7 +21,8 @@ func MatchWildcardRegexp(query string, exact bool) *regexp.Regexp {
 	if exact {
 		return regexp.MustCompile(fmt.Sprintf("^%s$", regexpQuery))
 	}
-	return regexp.MustCompile(fmt.Sprintf("^%s", regexpQuery))
+	// The path itself or anything beneath it, at path element boundaries: /a/b matches /a/b/c and /a/b[k=1] but not /a/bc
+	return regexp.MustCompile(fmt.Sprintf(`^%s($|[/\[])`, regexpQuery))
 }
 
 // MatchWildcardChNameRegexp creates a Regular Expression from a wild-carded path
